@@ -177,13 +177,13 @@ def validator_boundaries():
     bad = []
     n = 0
 
-    def blk(height, prev, value, wire=False):
+    def blk(height, prev, value, wire=False, ts=None):
         values = value if isinstance(value, (list, tuple)) else [value]
         cb = Transaction([Input(OutputReference(b'\x00' * 32, 0), CoinbaseData(height, b''))], [Output(v, pk) for v in values])
         if wire:
             # as a peer would deliver it: encoded by the check's own encoder, decoded by the implementation
             cb = Transaction.deserialize(enc.enc_tx(cb))
-        s = BlockSummary(height, prev, cb.hash(), 1_700_000_000 + height % 1000, b'\xff' * 32, 0)
+        s = BlockSummary(height, prev, cb.hash(), (1_700_000_000 + height % 1000) if ts is None else ts, b'\xff' * 32, 0)
         return Block(BlockHeader(s, PowEvidence(b'\x01' * 32, b'\x02' * 32, b'\x03' * 32)), [cb])
     zero = CoinState.zero()
     for e in list(range(1, 32)) + [63, 64, 65]:
@@ -205,6 +205,27 @@ def validator_boundaries():
                            ([4 * 10**18, 2**64 - (4 * 10**18 - sub)], False, 'wire amounts 4e18 and 2^64-(4e18-subsidy)'),
                            ([2**63, 2**63 + sub], False, 'wire amounts 2^63 and 2^63+subsidy'),
                            ([2**64 - 1, sub + 1], False, 'wire amounts 2^64-1 and subsidy+1')]
+            if d == 0 and ref(h - 1) > sub:
+                # a block at the first height of an era that REPORTS a height of the previous era (in its summary and in its
+                # reward transaction) and claims that era's subsidy: the in-chain validators (summary + reward) must not both
+                # pass it - else the subsidy "rises again" for whoever lies about the height
+                for claimed in (h - 1, h - INTERVAL):
+                    if claimed < 1:
+                        continue
+                    n += 1
+                    cand = blk(claimed, parent.hash(), ref(claimed), ts=parent.header.summary.timestamp + 60)
+                    passed = 0
+                    for f in (lambda: C.validate_block_summary_in_coinstate(cand.header.summary, cs),
+                              lambda: C.validate_coinbase_transaction_in_coinstate(cand.transactions[0], cand, cs)):
+                        try:
+                            f()
+                            passed += 1
+                        except Exception:
+                            pass
+                    if passed == 2 and len(bad) < 6:
+                        bad.append(('validator-reward-bound', "a block at chain position %d reporting height %d and paying itself "
+                                    "subsidy(%d) = %d (position's subsidy: %d) passes the in-chain summary and reward validators" % (
+                                        h, claimed, claimed, ref(claimed), sub), h))
             for value, expect_ok, label in shapes:
                 n += 1
                 try:
